@@ -27,7 +27,7 @@ Definition determine_gap (reps : list grep) : option Z :=
 Definition r_length (gap : Z) (r : grep) : Z :=
   let c := cfgs (g_idl r) in
   if isr (g_idl r) then (Z.of_nat (List.length c) * rep_gap r / gap)%Z
-  else ((zlast c - zhd c + 1) / gap)%Z.
+  else ((zlast c - zhd c + gap) / gap)%Z.
 
 (* _expand_deltas: zero-filled array on the grid first, first+gap, ...; unchanged for a range whose step is the gap *)
 Fixpoint scatter_gap (ret : list Q) (base gap : Z) (idx : list Z) (deltas : list Q) : list Q :=
